@@ -50,6 +50,7 @@ def callJ (c : Cfg) : Call → J
   | .rmtree d => .arr [.str "rmtree", .str (role c d)]
   | .zipData z _ s => .arr [.str "zip_data", .str (role c z), .str (role c s)]
   | .zipDir z => .arr [.str "zip_dir", .str (role c z)]
+  | .zipTrunc z => .arr [.str "zip_trunc", .str (role c z)]
 
 def initFS (c : Cfg) (dest : Option Node) : FS :=
   upd (upd (fun _ => none) c.dir (some .dir)) c.dest dest
